@@ -5,8 +5,9 @@ import pvlib
 CHILD = os.path.join(pvlib.VERIF, "harness", "children", "child.py")
 
 
-def run_traced(ctx, argv, stdin, child_args, child_fn="id", timeout=60, log_child=None, nice=None):
-    """returns (status, stdout, stderr, trace_lines)"""
+def run_traced(ctx, argv, stdin, child_args, child_fn="id", timeout=60, log_child=None, nice=None, pauses=None, pause_s=0.12):
+    """returns (status, stdout, stderr, trace_lines).  pauses: byte offsets of stdin at which the feeder stalls for
+    pause_s seconds (the upstream producer of a pipeline pausing), so that the wrapper's threads catch up with the input"""
     rfd, wfd = os.pipe()
     env = pvlib.san_env({"PREPROCESS_VERIF_TRACE_FD": str(wfd), "PV_CHILD_FN": child_fn})
     child = [sys.executable, CHILD] + (["log", log_child] if log_child else []) + child_args
@@ -21,13 +22,48 @@ def run_traced(ctx, argv, stdin, child_args, child_fn="id", timeout=60, log_chil
             trace.append(f.read())
     t = threading.Thread(target=rd)
     t.start()
-    try:
-        out, err = p.communicate(stdin, timeout=timeout)
-        st = p.returncode if p.returncode >= 0 else "sig%d" % -p.returncode
-    except subprocess.TimeoutExpired:
-        p.kill()
-        out, err = p.communicate()
-        st = "HANG"
+    if pauses:
+        import time
+        bufs = {"o": [], "e": []}
+
+        def pump(f, key):
+            bufs[key].append(f.read())
+        to, te = threading.Thread(target=pump, args=(p.stdout, "o")), threading.Thread(target=pump, args=(p.stderr, "e"))
+        to.start(); te.start()
+
+        def feed():
+            pos = 0
+            try:
+                for off in sorted(set(o for o in pauses if 0 < o < len(stdin))) + [len(stdin)]:
+                    p.stdin.write(stdin[pos:off]); p.stdin.flush()
+                    pos = off
+                    if off < len(stdin):
+                        time.sleep(pause_s)
+            except (BrokenPipeError, OSError):
+                pass
+            try:
+                p.stdin.close()
+            except OSError:
+                pass
+        tf = threading.Thread(target=feed)
+        tf.start()
+        try:
+            p.wait(timeout=timeout)
+            st = p.returncode if p.returncode >= 0 else "sig%d" % -p.returncode
+        except subprocess.TimeoutExpired:
+            p.kill()
+            p.wait()
+            st = "HANG"
+        tf.join(timeout=10); to.join(timeout=10); te.join(timeout=10)
+        out, err = b"".join(bufs["o"]), b"".join(bufs["e"])
+    else:
+        try:
+            out, err = p.communicate(stdin, timeout=timeout)
+            st = p.returncode if p.returncode >= 0 else "sig%d" % -p.returncode
+        except subprocess.TimeoutExpired:
+            p.kill()
+            out, err = p.communicate()
+            st = "HANG"
     t.join(timeout=5)
     lines = (trace[0] if trace else b"").decode(errors="replace").split("\n")
     return st, out, err, [l for l in lines if l]
